@@ -24,6 +24,8 @@
     assigned initial inbound value, then increases by exactly one, 0xFFFFFFFF being followed by 1
   * Close Session names the granted session id
   * every IPMI message is addressed to the BMC (20h) and has two valid checksums
+  * a datagram that is lost still counts (`stepLost`): a retransmission after a time-out is a new
+    datagram and carries the next sequence number; a repeated number is flagged (`seq-step`)
 
   Core only.
 -/
@@ -264,6 +266,20 @@ def step (md5 : List Nat → List Nat) (cfg : BmcCfg) (st : BmcState) (dgram : L
       | some rq =>
         if rq.rsAddr ≠ bmcAddr then fail st .notForBmc else handle md5 cfg st p rq
 
+/-- A datagram that gets lost on its way to the BMC (or whose answer gets lost: the console
+cannot tell the difference, it sees a time-out and sends the request again).  The monitor sits on
+the console's side of the wire: it validates the datagram like any other and counts its session
+sequence number, so that the retransmission has to carry the NEXT number; the BMC itself does
+not act on it (phase, outbound sequence number unchanged). -/
+def stepLost (md5 : List Nat → List Nat) (cfg : BmcCfg) (st : BmcState) (dgram : List Nat) :
+    BmcState × Verdict :=
+  match step md5 cfg st dgram with
+  | (st', .protocolError w) => (st', .protocolError w)
+  | (_, .reply r) =>
+    match st.phase, parseLan dgram with
+    | .active a _, some p => ({ st with phase := .active a (some p.seq) }, .reply r)
+    | _, _ => (st, .reply r)
+
 /-- the BMC as a peer of a remote console: it answers, or stays silent when it objects -/
 def peer (md5 : List Nat → List Nat) (cfg : BmcCfg) (st : BmcState) (d : List Nat) :
     BmcState × Option (List Nat) :=
@@ -271,10 +287,24 @@ def peer (md5 : List Nat → List Nat) (cfg : BmcCfg) (st : BmcState) (d : List 
   | (st', .reply r) => (st', some r)
   | (st', .protocolError _) => (st', none)
 
+/-- the BMC behind a network that loses datagrams: `plan i` tells whether datagram number `i`
+(counted from 0 over everything the console transmits) is lost -/
+def lossy (md5 : List Nat → List Nat) (cfg : BmcCfg) (plan : Nat → Bool) :
+    Nat × BmcState → List Nat → (Nat × BmcState) × Option (List Nat)
+  | (i, st), d =>
+    if plan i then ((i + 1, (stepLost md5 cfg st d).1), none)
+    else ((i + 1, (peer md5 cfg st d).1), (peer md5 cfg st d).2)
+
 /-- run the monitor over a list of datagrams; the final state tells whether any was flagged -/
 def run (md5 : List Nat → List Nat) (cfg : BmcCfg) : BmcState → List (List Nat) → BmcState
   | st, [] => st
   | st, d :: ds => run md5 cfg (step md5 cfg st d).1 ds
+
+/-- the monitor over everything the console transmitted, each datagram with the flag "lost" -/
+def runWire (md5 : List Nat → List Nat) (cfg : BmcCfg) : BmcState → List (Bool × List Nat) → BmcState
+  | st, [] => st
+  | st, (lost, d) :: ds =>
+    runWire md5 cfg (if lost then (stepLost md5 cfg st d).1 else (step md5 cfg st d).1) ds
 
 /-- the verdicts of the monitor on a list of datagrams, one per datagram -/
 def verdicts (md5 : List Nat → List Nat) (cfg : BmcCfg) : BmcState → List (List Nat) → List Verdict
